@@ -3,7 +3,7 @@
    the same per member (`visit_member` against the member's segment of the logged trace).  Definitions only. *)
 From Coq Require Import List NArith Bool.
 Import ListNotations.
-From SV Require Import C15.Model C15.Corr C15v.Syntax C15v.Visitor.
+From SV Require Import C15.Model C15.Corr C15v.Syntax C15v.Visitor C15v.Rules.
 
 Definition event_list_eqb (a b : list event) : bool := list_eqb event_eqb a b.
 
@@ -30,8 +30,8 @@ Fixpoint first_diff (i : N) (a b : list event) : option (N * (N * N * N * N) * (
 Definition all_members (m : module) : list member := flat_map tl_members (md_tops m).
 
 (* one case: the interned name "this", the module, the whole logged trace, the logged segment of every member
-   (in the order of all_members) *)
-Definition vcase := (N * module * list event * list (list event))%type.
+   (in the order of all_members), and use_define_map of the SsaAnalysisResult *)
+Definition vcase := (N * module * list event * list (list event) * list (N * N))%type.
 
 (* failures of one case: (0, diff) for the whole module, (k + 1, diff) for the k-th member *)
 Fixpoint member_fails (k : N) (ms : list member) (segs : list (list event)) :
@@ -46,10 +46,18 @@ Fixpoint member_fails (k : N) (ms : list member) (segs : list (list event)) :
   | _, _ => [(k + 1, (0, (0, 0, 0, 0), (0, 0, 0, 0)))%N]      (* not as many segments as members *)
   end.
 
+(* use_define_map according to the declarative rules alone (Rules.v; no trace, no stack machine):
+   HashMap::insert keeps the newest entry of a use location *)
+Definition lex_use_define (this : N) (m : module) : list (N * N) :=
+  dedup_keys (rev (res_uses (lex_module this m))) [].
+
+Definition SPEC_CODE : N := 999999.
+
 Definition check_vcase (c : vcase) : list (N * (N * (N * N * N * N) * (N * N * N * N))) :=
-  let '(this, m, real, segs) := c in
+  let '(this, m, real, segs, ud) := c in
   match first_diff 0 (visit_module this m) real with Some d => [(0%N, d)] | None => [] end ++
-  member_fails 0 (all_members m) segs.
+  member_fails 0 (all_members m) segs ++
+  (if perm_b pair_eqb (lex_use_define this m) ud then [] else [(SPEC_CODE, (0, (0, 0, 0, 0), (0, 0, 0, 0)))%N]).
 
 Fixpoint vfails (i : N) (cs : list vcase) : list (N * list (N * (N * (N * N * N * N) * (N * N * N * N)))) :=
   match cs with
@@ -62,9 +70,10 @@ Fixpoint vfails (i : N) (cs : list vcase) : list (N * list (N * (N * (N * N * N 
 
 (* the boolean form used in the evidence text *)
 Definition vcase_ok (c : vcase) : bool :=
-  let '(this, m, real, segs) := c in
+  let '(this, m, real, segs, ud) := c in
   event_list_eqb (visit_module this m) real &&
-  list_eqb event_list_eqb (map visit_member (all_members m)) segs.
+  list_eqb event_list_eqb (map visit_member (all_members m)) segs &&
+  perm_b pair_eqb (lex_use_define this m) ud.
 
 (* ---- builders used by the generated case files: Rust Vec -> the cons-list types of Syntax.v ---- *)
 Definition annots_of (l : list annot) : annots := fold_right TCons TNil l.
